@@ -262,12 +262,15 @@ def leg2(ctx, bdir):
         ("jt", [3, 5, 8, 12, 15, 20, 30, 40], 4, 28 if q else 400, (0,), (0, 4), ["jtab", "jtabloop"]),
         # register SWAPS: few 32-bit and many 64-bit registers (TypeIds kInt64/kUInt64/kIntPtr/kUIntPtr by type salt) with
         # non-zero upper halves in small loops / diamonds whose bodies pin values to CL, rdx:rax, argument and return registers
+        # AVX-512 frame with 24..28 live xmm/ymm registers: VEX vpand/vpandn/vpor/vpxor/vmovdqa/vmovdqu whose operands land in
+        # registers 16..31 are rewritten to their EVEX twins by the allocator
+        ("avx", [3, 5], 8, 24 if q else 300, (24, 26, 28), (0,), ["straight", "diamond", "loop2", "nested", "hdrloop"]),
         ("swap", [3, 4], 3, 56 if q else 400, (0,), (5, 6, 7, 8, 9), ["swapl", "swapl", "swapd"]),
     ]
     if not q:
         plan.append(("vhi", [48, 64, 96, 160, 200], 6, 120, (0, 24), (0, 6), ALL_SK))
     for name, pset, blen, num, qset, wset, sks in plan:
-        cfg = gen_cfg(ctx, f"gen_{name}.cfg", pset, sks, ["fixed", "calls", "all"] if name == "swap" else ALL_HZ, blen, True, qset, wset)
+        cfg = gen_cfg(ctx, f"gen_{name}.cfg", pset, sks, ["fixed", "calls", "all"] if name == "swap" else ["plain", "mem", "fixed"] if name == "avx" else ALL_HZ, blen, True, qset, wset)
         workers = 4
         r = vlib.run_tlc(ctx, GEN, cfg, workers=workers, timeout=600, heap="4g", tag=f"gen_{name}",
                          simulate=max(1, num // workers), depth=6000, seed=ctx.seed)
@@ -392,7 +395,7 @@ def judge_tv(ctx, tv_path, mode, tag, workers=6, timeout=1500):
         return r, rej
     if r.kind == "ok":
         return r, {}
-    if r.kind == "violation" and r.violated in ("UsesSeeTheirValue", "SlotsInv"):
+    if r.kind == "violation" and r.violated in ("UsesSeeTheirValue", "SlotsInv", "ConsecutiveInv", "RenameInv"):
         return r, {-1: (0, r.violated)}
     raise Broken(f"TLC (translation validation, strict) kind={r.kind} rc={r.rc}\n" + "\n".join(r.out.splitlines()[-30:]))
 
